@@ -445,6 +445,8 @@ def run(ctx: Ctx) -> Result:
     res = run_shards(ctx, shard, list(range(nshards)))
     res.merge(cli_differential(ctx))
     res.merge(filter_fault_stage(ctx))
+    res.merge(store_logger_stage(ctx))
+    res.obligations.setdefault("shipped-store-logger", False)
     res.obligations.setdefault("code-filter-faults", False)
     res.obligations.setdefault("cli-run-differential", False)
     for kind in ("LST", "DCT", "SET", "TUP", "GA", "GAR"):
@@ -536,6 +538,78 @@ def filter_fault_stage(ctx: Ctx) -> Result:
 
         attempt(f"user filter raising at consultations {list(fs)} of {total}", failing, {"kind": "FILTER", "pos": "user-filter", "faults": list(fs), "raise": False, "profiler": False, "filter_stage": True})
     res.oblige("code-filter-faults", True)
+    return res
+
+
+def store_logger_stage(ctx: Ctx) -> Result:
+    """The SHIPPED logger (CallTraceStoreLogger over an in-memory store) instead of the fault-injecting one: calls whose
+    arguments are instances of classes with a journaling METACLASS (__eq__, __hash__, __instancecheck__ on the class objects)
+    and of classes with journaling __eq__ / __hash__ themselves - the same function called again and again, with equal and
+    with different classes. Between the calls and at flush time nothing may compare, hash or inspect the program's classes."""
+    from monkeytype.db.base import CallTraceStore, CallTraceStoreLogger
+    from monkeytype.tracing import trace_calls
+
+    res = Result()
+    journal: List[str] = []
+
+    class Meta(type):
+        def __eq__(cls, other):
+            journal.append(f"Meta.__eq__({cls.__name__})")
+            return cls is other
+
+        def __hash__(cls):
+            journal.append(f"Meta.__hash__({cls.__name__})")
+            return id(cls) >> 4
+
+        def __instancecheck__(cls, obj):
+            journal.append(f"Meta.__instancecheck__({cls.__name__})")
+            return type.__instancecheck__(cls, obj)
+
+    ns: Dict[str, Any] = {"__name__": "c03_storelogger", "Meta": Meta}
+    d = ctx.tmp / "c03_storelogger"
+    d.mkdir(exist_ok=True)
+    fname = str(d / "sl.py")
+    exec(compile("class A(metaclass=Meta):\n    pass\n\n\nclass B(metaclass=Meta):\n    pass\n\n\ndef f(x, y=None):\n    return x\n\n\ndef work():\n    a, b = A(), B()\n    return [type(v).__name__ for v in (f(a), f(b), f(a), f(a, b), f(a, b), f(b, a))]\n", fname, "exec"), ns)
+
+    class Mem(CallTraceStore):
+        def __init__(self):
+            self.n = 0
+
+        def add(self, traces):
+            self.n += len(list(traces))
+
+        def filter(self, module, qualname_prefix=None, limit=2000):
+            return []
+
+        @classmethod
+        def make_store(cls, connection_string):
+            return cls()
+
+    journal.clear()
+    want = ns["work"]()
+    base_journal = list(journal)
+    for k in (0, 3):
+        journal.clear()
+        store = Mem()
+        res.states += 1
+        res.evaluations += 1
+        res.validated += 1
+        res.transitions += 6
+        case = {"kind": "STORELOGGER", "pos": "metaclass", "faults": [], "raise": False, "profiler": False, "store_logger": True, "k": k}
+        try:
+            with trace_calls(CallTraceStoreLogger(store), k, lambda code: code.co_filename == fname):
+                got = ns["work"]()
+        except BaseException as e:  # noqa: BLE001
+            res.violate(Violation(ID, "escaped-exception", "store-logger", case, f"traced workload raised {e!r}"))
+            continue
+        extra = [j for j in journal if j not in base_journal] if journal != base_journal else []
+        if got != want or extra:
+            res.violate(Violation(ID, "journal-differs", "store-logger:metaclass-hooks", case, f"six calls logged through CallTraceStoreLogger: result {got!r} (untraced {want!r}); hooks of the program's metaclass run by MonkeyType: {sorted(set(extra))}"))
+        elif store.n != 7:
+            res.violate(Violation(ID, "result-differs", "store-logger:count", case, f"seven completed calls (six of f, one of work), the store received {store.n} traces"))
+        else:
+            res.nontrivial_n += 1
+    res.oblige("shipped-store-logger", True)
     return res
 
 
@@ -687,6 +761,8 @@ def cli_differential(ctx: Ctx) -> Result:
 def replay(case: Dict[str, Any], ctx: Ctx) -> List[Violation]:
     if case.get("filter_stage"):
         return filter_fault_stage(ctx).violations
+    if case.get("store_logger"):
+        return store_logger_stage(ctx).violations
     if case.get("cli"):
         return cli_differential(ctx).violations
     M, T, files = load(ctx)
